@@ -1,6 +1,6 @@
 # rule instances used by more than one property
 import re
-from ..core import norm, relloc, live, calls, evs, Broken, value_origin, Tracer, fmt_trace, rooted
+from ..core import norm, relloc, live, calls, evs, Broken, value_origin, Tracer, fmt_trace, rooted, pos
 from .. import atomic
 from ..rules import *
 
@@ -106,7 +106,7 @@ def claimed_promise(ctx, db, rid):
                 ret = [it for it in tr if it.k == 'return' and it.get('depth') == 0]
                 if win is not False:
                     bad = bad or ('a path neither starts the coroutine nor saw a lost claim', tr)
-                elif ret and ret[-1].get('const') != 0 and re.sub(r'^(?:ctor\(|move\()+|\)+$', '', resolve_select(ret[-1].get('path') or '', tr) or '') not in ('nullptr', '{}', '', '0'):
+                elif ret and ret[-1].get('const') != 0 and re.sub(r'^(?:ctor\(|move\()+|\)+$', '', origin_in_trace(tr, pos(tr, ret[-1]), resolve_select(ret[-1].get('path') or '', tr) or '')[0] or '') not in ('nullptr', '{}', '', '0'):
                     bad = bad or ('a lost claim does not report null', tr)
         if started == 0 or refused == 0:
             bad = bad or ('start_promise lost its started/refused outcomes', trs[0] if trs else [])
@@ -163,7 +163,8 @@ def built_on(ctx, db, pid):
                   ('suspend-point', 'handles-consumed-once', lambda r: C06.consumers_clear(ctx, db, r)),
                   ('suspend-point', 'awaiter-queued-once', lambda r: C06.self_inclusion(ctx, db, r)),
                   ('suspend-point', 'collected-is-removed', lambda r: C06.collected_is_removed(ctx, db, r)),
-                  ('suspend-point', 'growth', lambda r: C06.growth(ctx, db, r))]
+                  ('suspend-point', 'growth', lambda r: C06.growth(ctx, db, r)),
+                  ('suspend-point', 'handles-leave-in-arrival-order', lambda r: __import__('coclint.props.C05', fromlist=['x']).order_kept(ctx, db, r))]
     if 'coro_queue' in comps:
         from . import C05
         items += [('coro-queue', 'mode-split', lambda r: C05.mode_split(ctx, db, r)),
